@@ -10,7 +10,7 @@
      canon ms v = (first_name ms v, v)   specification: first declared name of number v, None if undefined
      in_table c m                  model of "m is the very object stored in the class table"
    Every theorem quantifies over ALL bodies / numbers / histories; nothing is bounded. *)
-From BP Require Import Base.Prelude Model.Varint Model.Scalar Model.Enum.
+From BP Require Import Base.Prelude Model.Varint Model.Scalar Model.Enum Spec.Varint.
 From BP Require Import Proofs.EnumP.
 
 (* the namespace never holds a name twice, so the member list has distinct names whatever the body;
@@ -154,6 +154,23 @@ Theorem C20_roundtrip_packed_partial : forall body vs,
 Proof. exact packed_roundtrip. Qed.
 Print Assumptions C20_roundtrip_packed_partial.
 
+(* a defined number decodes to the canonical member object itself *)
+Theorem C20_decode_defined_is_canonical : forall body n v,
+  In (n, v) (members_of body) -> int32 v ->
+  in_table (class_of body) (enum_post (class_of body) (v mod 2 ^ 64)) = true /\
+  call (class_of body) v = Ok (enum_post (class_of body) (v mod 2 ^ 64)).
+Proof. exact decode_defined_is_canonical. Qed.
+Print Assumptions C20_decode_defined_is_canonical.
+
+(* every legal encoding — minimal or padded, ten-byte sign-extended or the five-byte form some encoders
+   write for negative enum numbers (any varint congruent to v modulo 2^32) — is read as v *)
+Theorem C20_any_encoding_decodes : forall body v raw bs rest,
+  int32 v -> raw mod 2 ^ 32 = v mod 2 ^ 32 -> VarintRep raw bs ->
+  load_varint (bs ++ rest) = Ok (raw, bs, rest) /\
+  enum_post (class_of body) raw = try_value (class_of body) v.
+Proof. exact any_encoding_decodes. Qed.
+Print Assumptions C20_any_encoding_decodes.
+
 (* any varint at all decodes to an int32 number (the reference truncates the same way) *)
 Theorem C20_decoded_is_int32 : forall body raw, int32 (snd (enum_post (class_of body) raw)).
 Proof. exact decoded_number_is_int32. Qed.
@@ -268,3 +285,8 @@ Example C20_ex_json :
   from_json_el (class_of ex_body) (JNum (-7)) = Ok (None, -7) /\
   from_json_el (class_of ex_body) (JName [x52; x4f; x55; x47; x45]) = Ok (Some [x52; x45; x44], 1).
 Proof. vm_compute. repeat split. Qed.
+
+Example C20_ex_five_byte_negative :   (* ff ff ff ff 0f = 2^32-1 is read as NEG = -1 *)
+  VarintRep (2 ^ 32 - 1) [xff; xff; xff; xff; x0f] /\ (2 ^ 32 - 1) mod 2 ^ 32 = (-1) mod 2 ^ 32 /\
+  enum_post (class_of ex_body) (2 ^ 32 - 1) = (Some [x4e; x45; x47], -1).
+Proof. split; [repeat split; cbn; lia|]. split; [reflexivity|vm_compute; reflexivity]. Qed.
